@@ -11,13 +11,13 @@ from .loader import Unsupported
 from .ops import PyRaise, _and, _b, _not
 from .smt import check_with_fallback, model_to_dict
 from .spec import Contract
-from .state import Obligation, PathInfeasible
+from .state import Heap, Obligation, PathInfeasible
 from .tys import mk_sym
 from .values import *  # noqa: F401,F403
 from .values import term_of
 
 
-SPEC_FORMS = {"forall_str", "forall_int", "old", "implies", "iff", "forall_in", "exists_in", "ite", "fresh_clock", "typeis", "flag"}
+SPEC_FORMS = {"forall", "exists", "forall_str", "forall_int", "old", "implies", "iff", "forall_in", "exists_in", "ite", "fresh_clock", "typeis", "flag"}
 
 
 class GhostNS(V):
@@ -79,7 +79,7 @@ class ContractInterp(Interp):
             if self.old_state is None:
                 raise Unsupported("old() outside a two-state clause")
             heap, ghost = self.st.heap, self.st.ghost
-            self.st.heap, self.st.ghost = dict(self.old_state[0]), dict(self.old_state[1])
+            self.st.heap, self.st.ghost = Heap(self.old_state[0]), dict(self.old_state[1])
             try:
                 v = self.eval(e.args[0], fr)
                 snap = None
@@ -122,6 +122,17 @@ class ContractInterp(Interp):
             if n == "forall_in":
                 return VBool(z3.And(*out) if out else z3.BoolVal(True))
             return VBool(z3.Or(*out) if out else z3.BoolVal(False))
+        if n in ("forall", "exists"):
+            # forall(x, "Type", body): quantification over a first-order sort (objects, str, int, datetime, ...)
+            var = e.args[0].id
+            t = self.tenv.parse(ast.literal_eval(e.args[1]))
+            from .tys import elem_type
+            t = elem_type(t)
+            x = z3.Const(self.st.fresh_name(var), sort_of_type(t))
+            f2 = Frame(fr.finfo, fr, cls=fr.cls)
+            f2.vars[var] = VObj(t[1], x) if t[0] in ("obj", "symobj") else wrap(t, x)
+            body = _b(self.truth(self.eval(e.args[2], f2)))
+            return VBool(z3.ForAll([x], body) if n == "forall" else z3.Exists([x], body))
         if n in ("forall_str", "forall_int"):
             var = e.args[0].id
             srt = z3.StringSort() if n == "forall_str" else z3.IntSort()
@@ -379,7 +390,7 @@ class ContractInterp(Interp):
                 for eff in r.effects:
                     if len(eff) > 2:
                         saved = (st.heap, st.ghost)
-                        st.heap, st.ghost = dict(old[0]), dict(old[1])
+                        st.heap, st.ghost = Heap(old[0]), dict(old[1])
                         try:
                             cond = self.spec_bool(eff[2], env, old)
                         finally:
@@ -407,7 +418,7 @@ class ContractInterp(Interp):
             lst, ev = eff[0], eff[1]
             if len(eff) > 2:
                 saved = (st.heap, st.ghost)
-                st.heap, st.ghost = dict(old[0]), dict(old[1])
+                st.heap, st.ghost = Heap(old[0]), dict(old[1])
                 try:
                     cond = self.spec_bool(eff[2], env, old)
                 finally:
@@ -431,10 +442,12 @@ class ContractInterp(Interp):
             for fld, fexpr in c.result_fields.items():
                 self.set_field(result, fld, self.eval_spec_expr(fexpr, env, old))
         env["result"] = result
+        if c.ensures and not st.feasible(z3.BoolVal(True)):
+            raise PathInfeasible()      # the path was already infeasible before this call
         try:
             for _k, ex in c.ensures.items():
                 st.assume(self.spec_bool(ex, env, old))
-            if not st.feasible(z3.BoolVal(True)):
+            if c.ensures and not st.feasible(z3.BoolVal(True)):
                 raise PathInfeasible()
         except PathInfeasible:
             raise Unsupported(f"the contract of {c.fn} is unsatisfiable at this call site (line "
